@@ -30,10 +30,17 @@ type vector struct {
 	Tag   string `json:"tag"`
 	Class string `json:"class"`
 
-	Table   string   `json:"table"`
-	Targets []target `json:"targets"`
+	Table   string     `json:"table"`
+	Sources []source   `json:"sources"` // route vectors: the router's source table
+	PTags   [][]string `json:"ptags"`   // route vectors: the promise's tags (empty: the tag of the vector under resonate:invoke)
+	Targets []target   `json:"targets"`
 	Recv    string   `json:"recv"`
 	Kind    string   `json:"kind"`
+}
+
+type source struct {
+	Name string `json:"name"`
+	Key  string `json:"key"`
 }
 
 type target struct {
@@ -49,6 +56,8 @@ type routeObs struct {
 	I        int    `json:"i"`
 	Tag      string `json:"tag"`
 	Class    string `json:"class"`
+	Table    string `json:"table"`
+	Tagset   string `json:"tagset"`
 	Matched  bool   `json:"matched"`
 	Recv     string `json:"recv"`
 	RecvNorm string `json:"recvNorm"`
@@ -101,7 +110,14 @@ func taskIdOf(kind string) string { return "__" + kind + ":t1" }
 // fields that merely echo the vector (and the constants of the experiment) are kept so that
 // the consumer can tell which vector it was; everything observed is zero.
 func deadRoute(v *vector) *routeObs {
-	return &routeObs{E: "route", I: v.I, Tag: v.Tag, Class: v.Class, Dead: true}
+	return &routeObs{E: "route", I: v.I, Tag: v.Tag, Class: v.Class, Table: v.Table, Tagset: tagsetOf(v), Dead: true}
+}
+
+func tagsetOf(v *vector) string {
+	if i := strings.Index(v.Tag, "/"); v.Class == "sources" && i >= 0 {
+		return v.Tag[i+1:]
+	}
+	return ""
 }
 
 func deadSend(v *vector) *sendObs {
